@@ -42,4 +42,22 @@ PROPS = {
         'assumptions': ["the Go allocator, stack and scheduler are runtime; allocation is modelled as the sum of make() capacities",
                         "Hash() of a cell whose exotic payload is malformed is outside this property (C02 assumes well-formed exotic cells)"],
     },
+    'C02': {
+        'level': 'proof',
+        'coq': ['Properties/C02.v'],
+        'coq_gen': ['Properties/C07_gen.v'],
+        'rule': ("cell DAGs built bottom-up so that the exotic-cell rules hold (pruned branch with masks 1..7, library, "
+                 "Merkle proof, Merkle update, ordinary cells whose mask is the OR of the children's) plus ordinary random "
+                 "DAGs; for the chosen root the implementation's hash and depth at levels 0..3 and Level() are compared "
+                 "with the extracted model (Gallina SHA-256); oracles on the implementation: Cell.Hash = level-3 hash, "
+                 "caching hasher (twice) = plain, unchanged after reads, equal for the cell parsed from a reference-"
+                 "serialised BOC and for the same structure rebuilt without pointer sharing; root cells of real blocks "
+                 "(Merkle updates with pruned branches) through parse. A class is (family, root cell type, root mask, outcome)."),
+        'explanation': ("coq/Properties/C02.v: for every hash function, every tree over all cell types with masks 0..7 and "
+                        "every level, the model of newImmutableCell/Hash/Depth equals the declarative representation hash "
+                        "(Spec/ReprHash.v); evaluation of a shared array (cache) equals evaluation of the unfolded tree."),
+        'assumptions': ["SHA-256 is a parameter of the theorems; the Gallina SHA-256 used by the executable model is checked "
+                        "against crypto/sha256 by every compared hash",
+                        "level masks above 7 cannot be produced by the parser (d1 >> 5) and are outside the theorem"],
+    },
 }
